@@ -477,6 +477,10 @@ func (e *Env) index(ex *EIndex) Value {
 	x := e.x
 	b := e.eval(ex.X)
 	i := e.eval(ex.I)
+	if b.Typ == nil && strings.HasPrefix(b.Sort, "(Array ") {
+		// ghost sets (e.g. visited): membership
+		return boolV(Select(b.Term, x.asTerm(i)))
+	}
 	if b.Typ == nil {
 		e.errf("index on untyped value")
 	}
@@ -617,6 +621,32 @@ func (e *Env) call(ex *ECall) Value {
 		case "box":
 			v := e.eval(ex.Args[0])
 			return x.makeIface(v, v.Typ, types.NewInterfaceType(nil, nil))
+		case "fnresult":
+			// fnresult(f, i): the i-th result of calling the closure value f on arbitrary arguments (single-path closures)
+			fv := e.eval(ex.Args[0])
+			iv, ok := ex.Args[1].(*EInt)
+			if !ok || fv.Clo == nil {
+				e.errf("fnresult(closure, i) needs a visible closure")
+			}
+			var idx int
+			fmt.Sscanf(iv.V, "%d", &idx)
+			probe := e.st.clone()
+			var fargs []Value
+			for _, p := range fv.Clo.Fn.Params {
+				fargs = append(fargs, x.symbolicInput("fnarg."+p.Name(), p.Type(), probe))
+			}
+			var results []Value
+			nObl := len(x.Obls)
+			x.inline(probe, nil, fv.Clo.Fn, fv.Clo.Bindings, fargs, func(_ *State, r Value) { results = append(results, r) })
+			x.Obls = x.Obls[:nObl]
+			if len(results) != 1 {
+				e.errf("fnresult: closure is not single-path")
+			}
+			rs := flatten(results[0])
+			if idx >= len(rs) {
+				e.errf("fnresult: index out of range")
+			}
+			return rs[idx]
 		case "fieldptr":
 			pv := e.eval(ex.Args[0])
 			fname := exprText(ex.Args[1])
